@@ -585,6 +585,61 @@ func foldManyInputs(par, rounds int, rng *hx.Rand) (int, string) {
 	return passes, ""
 }
 
+// an observer released from inside a node function of the running pass, after the node it
+// observes has already changed in that pass: its update handler was filed and must be withdrawn
+func unobserveFromNodeFunction(par, rounds int, rng *hx.Rand) (int, string) {
+	passes := 0
+	for r := 0; r < rounds; r++ {
+		g := newGraph(par)
+		v := incr.Var(g, 1)
+		m := incr.Map(g, v, func(x int) int { return x + 100 })
+		var om incr.ObserveIncr[int]
+		drop := false
+		dropped := false
+		d := incr.Map(g, m, func(x int) int {
+			if drop && !dropped {
+				dropped = true
+				om.Unobserve(ctx)
+			}
+			return x + 1
+		})
+		od := incr.MustObserve(g, d)
+		om = incr.MustObserve(g, m)
+		var calls []int
+		om.OnUpdate(func(_ context.Context, val int) { calls = append(calls, val) })
+		want := []int{}
+		x := 1
+		n := 2 + rng.Intn(3)
+		for i := 0; i < n+2; i++ {
+			if i > 0 {
+				x += 1 + rng.Intn(5)
+				v.Set(x)
+			}
+			if i == n {
+				drop = true
+			}
+			if err := pass(g, par); err != nil {
+				return passes, err.Error()
+			}
+			passes++
+			if !dropped {
+				want = append(want, x+100)
+			}
+			if fmt.Sprint(calls) != fmt.Sprint(want) {
+				return passes, fmt.Sprintf("round %d pass %d: the observer's update handler was called with %v, expected %v (the observer was released from a node function in pass %d, after the node it observed had changed)", r, i, calls, want, n)
+			}
+			if od.Value() != x+101 {
+				return passes, fmt.Sprintf("round %d pass %d: downstream observer reads %d, expected %d", r, i, od.Value(), x+101)
+			}
+		}
+		od.Unobserve(ctx)
+		if nn := incr.ExpertGraph(g).NumNodes(); nn != 0 {
+			return passes, fmt.Sprintf("round %d: %d nodes left after every observer was released", r, nn)
+		}
+	}
+	return passes, ""
+}
+
 // several binds of one height whose right-hand sides read shared outer nodes of different
 // heights, all switching in the same pass
 func bindsSharingOuter(par, rounds int, rng *hx.Rand) (int, string) {
@@ -652,6 +707,7 @@ func main() {
 		{"time-nodes-next-to-a-failing-bind", "a Snapshot woken by Clock.Advance in the height block of a bind whose function fails in that pass", timeNodesNextToFailingBind},
 		{"failing-siblings-queue-children", "nodes of one height block fail or panic and re-queue themselves while siblings queue children", failingSiblings},
 		{"fold-many-inputs", "UnorderedArrayFold with repeated inputs, most inputs changing in one pass", foldManyInputs},
+		{"unobserve-from-a-node-function", "an observer is released from inside a node function after the node it observes changed in that pass", unobserveFromNodeFunction},
 		{"binds-sharing-outer-nodes", "six binds of one height switch between shared outer nodes of different heights in one pass", bindsSharingOuter},
 	}
 	rep := hx.NewReport("parscen", *seed)
